@@ -15,6 +15,7 @@ import wref
 from tflinterp import vec_srdhm, vec_rdbp
 
 I64 = np.int64
+BIGCLAMP = 1 << 60  # results beyond the 32-bit datapath saturate; the activation clamp that follows makes the exact bound immaterial
 
 
 # H6 leaves two admissible readings of the 32-bit operand scaling of ADD/SUB: 2 = pre-shift then double-rounding scaler (the structure of the
@@ -100,7 +101,7 @@ def scale_round(acc, scale, shift, mode):
 
             flat_a, flat_s, flat_h = acc.ravel(), sc.ravel(), sh.ravel()
             res = [tflref.multiply_by_quantized_multiplier(int(a), int(s), 31 - int(h)) if int(s) < (1 << 31) else _tfl_wide(int(a), int(s), int(h)) for a, s, h in zip(flat_a, flat_s, flat_h)]
-            return np.asarray(res, I64).reshape(acc.shape)
+            return np.asarray([max(-BIGCLAMP, min(BIGCLAMP, v)) for v in res], I64).reshape(acc.shape)
         s = 31 - shift
         left = np.maximum(s, 0)
         right = np.maximum(-s, 0)
@@ -116,7 +117,7 @@ def scale_round(acc, scale, shift, mode):
             else:
                 v = (abs(a) * s) >> h
                 flat.append(v if a >= 0 else -v)
-        return np.asarray(flat, I64).reshape(acc.shape)
+        return np.asarray([max(-BIGCLAMP, min(BIGCLAMP, v)) for v in flat], I64).reshape(acc.shape)
     if mode == 2:
         return (acc * scale + np.where(shift > 0, I64(1) << np.maximum(shift - 1, 0), 0)) >> shift
     v = (np.abs(acc) * scale) >> shift
